@@ -185,7 +185,7 @@ class C06(core.Check):
                         L.append({'k': 'org', 'addr': org_next[0], 'zone_name': None})
                         org_next[0] += 0x40
                     else:
-                        L.append({'k': 'memzone', 'name': rng.choice(['ZQ', 'GLOBAL'])})
+                        L.append({'k': 'memzone', 'name': rng.choice(['ZQ', 'GLOBAL', 'GLOBAL'])})
                     mark(L)
                     L.append({'k': 'refslot', 'locals': [], 'after': L[-2]['k']})
             regions_in_file[f] = nreg
@@ -347,7 +347,7 @@ class C06(core.Check):
                     la = [it['name'] for it in L[a0:a1] if it['k'] == 'label' and it['name'].startswith('.')]
                     if la:
                         ins = [{'k': 'org', 'addr': 0x700 + rng.randrange(0, 64), 'zone_name': None}] if want == 'org' else \
-                            [{'k': 'memzone', 'name': 'ZQ'}]
+                            [{'k': 'memzone', 'name': rng.choice(['ZQ', 'GLOBAL', 'GLOBAL'])}]     # also a redundant switch to the current zone
                         L[a1:a1] = ins + [{'k': 'marker', 'v': 251}, {'k': 'ref', 'name': la[0]}]
                         return True
             return False
@@ -396,7 +396,7 @@ class C06(core.Check):
             elif r < 0.7:
                 files[f] += [{'k': 'org', 'addr': 0x7C0, 'zone_name': None}, {'k': 'label', 'name': '.lost'}, {'k': 'marker', 'v': 250}]
             else:
-                files[f] += [{'k': 'memzone', 'name': 'ZQ'}, {'k': 'label', 'name': '.lost'}, {'k': 'marker', 'v': 250}]
+                files[f] += [{'k': 'memzone', 'name': rng.choice(['ZQ', 'GLOBAL'])}, {'k': 'label', 'name': '.lost'}, {'k': 'marker', 'v': 250}]
             return True
         if kind == 'register-name':
             nm = rng.choice(REGS)
